@@ -54,9 +54,22 @@ def ann_kinds():
     k('multi', lambda t, a, a2: (['B {},4,2 {}'.format(a, t)], None))
     k('M', lambda t, a, a2: (['M {},4 {}'.format(a, t), 'B {},2'.format(a), 'B {},2'.format(a + 2)], None))
     k('M-nolen', lambda t, a, a2: (['M {} {}'.format(a, t), 'B {},2 first'.format(a), 'W {},2 second'.format(a + 2)], None))
+    # a comment group over instructions of mixed types (-> M directive) with comment-less statements of the
+    # same type directly before and after it
+    k('M-sandwich-B', lambda t, a, a2: (['B {},2'.format(a), 'M {},4 {}'.format(a + 2, t), 'B {},2'.format(a + 2), 'W {},2'.format(a + 4),
+                                        'B {},2'.format(a + 6), 'B {},2,1 tail'.format(a + 8)], None))
+    k('M-sandwich-C', lambda t, a, a2: (['C {},2'.format(a), 'M {},4 {}'.format(a + 2, t), 'C {},2'.format(a + 2), 'B {},2'.format(a + 4),
+                                        'C {},4'.format(a + 6)], None))
+    k('M-sandwich-W', lambda t, a, a2: (['W {},2'.format(a), 'M {},6 {}'.format(a + 2, t), 'W {},2'.format(a + 2), 'T {},2'.format(a + 4),
+                                        'W {},2'.format(a + 6), 'W {},4'.format(a + 8)], None))
+    # a mixed-type group whose last member is comment-less code, followed by comment-less code (1-byte instructions)
+    k('M-tail-C', lambda t, a, a2: (['M {},2 {}'.format(a + 1, t), 'B {},1'.format(a + 1), 'C {},1'.format(a + 2), 'C {},1'.format(a + 3)], None))
+    k('M-tail-C3', lambda t, a, a2: (['M {},3 {}'.format(a + 2, t), 'C {},1'.format(a + 2), 'B {},1'.format(a + 3), 'C {},1'.format(a + 4)], None))
     k('dot-D', lambda t, a, a2: (['D {}'.format(a), '. {}'.format(t), '. second line'], None))
     k('dot-title', lambda t, a, a2: (['. {}'.format(t)], ''))
     k('dot-colon', lambda t, a, a2: (['B {},4,2'.format(a), '. {}'.format(t), ': forced continuation', '. third'], None))
+    k('dot-colon-blank', lambda t, a, a2: (['B {},6,2'.format(a), '. {}'.format(t), ': forced continuation', '. ', '. '], None))
+    k('dot-colon-blank2', lambda t, a, a2: (['B {},8,2'.format(a), '. first', ': {}'.format(t), '. ', '. last', ': and more'], None))
     k('dot-header', lambda t, a, a2: (['. Title here', '.', '. {}'.format(t), '.', '.   A Input', '. O:B Output', '.', '. Start comment.'], ''))
     for d in ('label=START', 'keep', 'nowarn', 'ignoreua', 'rem=hello there', 'org', 'equ=FOO=1', 'assemble=2', 'defb=1,2', 'if({asm})(label=X)',
               'replace=/foo/bar', 'expand=#LET(x=1)', 'start', 'end', 'isub=DEFB 1', 'ofix=DEFB 2 ; fixed', 'rsub=!{}'.format(A + 1),
@@ -76,8 +89,11 @@ def ann_kinds():
     return K
 
 
+# sixteen 1-byte instructions (every address is a statement boundary)
+c01.FILLS.setdefault('ops1', bytes((0xAF, 0x3C, 0x3D, 0x04, 0x05, 0x0C, 0x0D, 0xB7, 0xA7, 0x2F, 0x37, 0x3F, 0x00, 0xD9, 0x08, 0xC9)))
+
 BASE_LAYOUTS = (
-    ('code', 'c'), ('code', 'b'), ('text', 't'), ('const', 's'), ('text', 'w'), ('code', 'g'),
+    ('code', 'c'), ('code', 'b'), ('text', 't'), ('const', 's'), ('text', 'w'), ('code', 'g'), ('ops1', 'c'),
 )
 
 
@@ -99,6 +115,12 @@ def allowed(kname, text, fill, btype):
         return False
     if kname == '@bytes' and not (fill == 'code' and btype == 'c'):
         return False
+    if kname == 'M-sandwich-C' and not (fill == 'code' and btype == 'c'):
+        return False
+    if kname.startswith('M-tail-C') != (fill == 'ops1') and (kname.startswith('M-tail-C') or fill == 'ops1'):
+        # the 1-byte-instruction fill is used for (and only for) the M-tail kinds and the plain header kinds
+        if kname.startswith('M-tail-C') or kname in ('icomment', 'multi', 'M', 'M-nolen', 'dot-colon', 'M-sandwich-B', 'M-sandwich-C', 'M-sandwich-W', '@ignoreua:i', '@bytes', 'dot-colon-blank', 'dot-colon-blank2'):
+            return False
     return True
 
 
